@@ -18,13 +18,13 @@ def shape_patterns(tier):
 
 
 def bounds(tier, lmax=5):
-    return {"l_pairs": (lmax + 1) ** 2, "type_pairs": 4, "geometries": 3 if tier == "quick" else 6,
+    return {"l_pairs": (lmax + 1) ** 2, "type_pairs": 4, "geometries": 5 if tier == "quick" else len(al.GEOMS), "atom_index_patterns": 3,
             "shape_patterns": len(shape_patterns(tier)), "K": "1..2" if tier == "quick" else "1..4",
             "M": "1..2" if tier == "quick" else "1..3", "whole_bases": "1,3,4 shells, all type patterns"}
 
 
 def configs(tier, lmax=5, singles=True, bases=True, shapes=None, geoms=None):
-    geoms = geoms or (al.GEOMS[:3] if tier == "quick" else al.GEOMS)
+    geoms = geoms or (al.GEOMS[:5] if tier == "quick" else al.GEOMS)
     shapes = shapes or shape_patterns(tier)
     out = []
     for la in range(lmax + 1):
@@ -32,8 +32,11 @@ def configs(tier, lmax=5, singles=True, bases=True, shapes=None, geoms=None):
             for ta, tb in al.type_patterns(2):
                 for g in geoms:
                     for sp in shapes:
+                        # atom indices as make_contractions assigns them: none / same index on different centres (two
+                        # separately built basis sets) / different indices - the index must never matter
+                        ic = [None, [0, 0], [1, 0]][(la + lb + len(out)) % 3]
                         out.append({"kind": "pair", "la": la, "lb": lb, "ta": ta, "tb": tb, "geom": g,
-                                    "shape": list(sp)})
+                                    "shape": list(sp), "ic": ic})
     if singles:
         for l in range(lmax + 1):
             for K in ([1, 2] if tier == "quick" else [1, 2, 3, 4]):
@@ -55,12 +58,16 @@ def build(cfg, originA=False):
     if cfg["kind"] == "pair":
         Ka, Ma, pa, Kb, Mb, pb = cfg["shape"]
         A = (0.0, 0.0, 0.0) if (originA or cfg.get("originA")) else al.generic_center("A")
-        B = al.add(A, al.displacement(cfg["geom"]))
         a = al.shell(cfg["la"], A, Ka, Ma, cfg["ta"], pat=pa, rot=0, tier=tier)
-        b = al.shell(cfg["lb"], B, Kb, Mb, cfg["tb"], pat=pb, rot=1, tier=tier)
+        b = al.shell(cfg["lb"], A, Kb, Mb, cfg["tb"], pat=pb, rot=1, tier=tier)
+        ea, eb = min(a.exps), min(b.exps)
+        B = al.add(A, al.displacement(cfg["geom"], mu=ea * eb / (ea + eb)))
+        b = b.with_(center=B)
+        if cfg.get("ic"):
+            a, b = a.with_(icenter=cfg["ic"][0]), b.with_(icenter=cfg["ic"][1])
         return [a, b]
     if cfg["kind"] == "single":
         return [al.shell(cfg["l"], al.generic_center("A"), cfg["K"], cfg["M"], cfg["t"], pat=cfg["pat"], tier=tier)]
     cs = al.molecule_centers(cfg["n"])
-    return [al.ladder_shell(cfg["start"] + i, cs[i], cfg["types"][i], lmax=cfg.get("lmax", 5))
-            for i in range(cfg["n"])]
+    return [al.ladder_shell(cfg["start"] + i, cs[i], cfg["types"][i], lmax=cfg.get("lmax", 5)).with_(
+        icenter=[None, i // 2, 0][cfg["start"] % 3]) for i in range(cfg["n"])]
